@@ -54,6 +54,8 @@ class NotOrMacro(Macro):
         prevs is the negative disjunction
         """
         goal, pt0 = args[0], prevs[0]
+        if not goal.is_not() or not pt0.prop.is_not():
+            raise VeriTException("not_or", "goal and premise should be negations")
         disjs = pt0.prop.arg.strip_disj()
         for d in disjs:
             if d == goal.arg:
@@ -84,8 +86,12 @@ class NotAndMacro(Macro):
 
     def eval(self, args, prevs):
         goal, pt0 = Or(*args), prevs[0]
+        if not pt0.prop.is_not():
+            raise VeriTException("not_and", "premise should be a negation")
         conj_atoms = pt0.prop.arg.strip_conj()
         disj_atoms = goal.strip_disj()
+        if len(conj_atoms) != len(disj_atoms):
+            raise VeriTException("not_and", "unexpected goal: %s" % goal)
         for i, j in zip(conj_atoms, disj_atoms):
             if Not(i) != j:
                 raise VeriTException("not_and", "unexpected goal: %s" % goal)
@@ -108,7 +114,11 @@ class NotNotMacro(Macro):
         self.limit = None
 
     def eval(self, args, prevs=None):
+        if len(args) != 2:
+            raise VeriTException("not_not", "clause must have two terms")
         neg_arg, pos_arg = args
+        if not (neg_arg.is_not() and neg_arg.arg.is_not() and neg_arg.arg.arg.is_not()):
+            raise VeriTException("not_not", "unexpected goal: %s" % Or(*args))
         if neg_arg.arg.arg.arg == pos_arg:
             return Thm(Or(neg_arg, pos_arg))
         else:
@@ -490,6 +500,8 @@ class VeritImpliesMacro(Macro):
         # goal : ~a | b  pt: |- a --> b
         goal = Or(*args)
         pt = prevs[0]
+        if not pt.prop.is_implies():
+            raise VeriTException("implies", "premise should be an implication")
         if Or(Not(pt.prop.arg1), pt.prop.arg) == goal:
             return Thm(goal, pt.hyps)
         else:
@@ -508,7 +520,11 @@ class VeriTAndPos(Macro):
 
     def eval(self, args, prevs=None):
         # args: ~(p1 & p2 & ... & pn) and pk
+        if len(args) != 2:
+            raise VeriTException("and_pos", "clause must have two terms")
         neg_conj, pk = args
+        if not neg_conj.is_not():
+            raise VeriTException("and_pos", "the first literal should be a negation")
         conjs = neg_conj.arg.strip_conj()
         if pk in conjs:
             return Thm(Or(neg_conj, pk))
@@ -537,6 +553,8 @@ class VeriTOrPos(Macro):
 
     def eval(self, args, prevs=None):
         neg_disj = args[0]
+        if not neg_disj.is_not():
+            raise VeriTException("or_pos", "the first literal should be a negation")
         disjs = neg_disj.arg.strip_disj()
         for a, b in zip(disjs, args[1:]):
             if a != b:
@@ -563,6 +581,8 @@ class VeriTNotEquiv1(Macro):
 
     def eval(self, args, prevs):
         pt = prevs[0]
+        if len(args) != 2 or not pt.prop.is_not() or not pt.prop.arg.is_equals():
+            raise VeriTException("not_equiv1", "premise should be a negated equivalence")
         p1, p2 = args
         pt_p1, pt_p2 = pt.prop.arg.arg1, pt.prop.arg.arg
         if p1 == pt_p1 and p2 == pt_p2:
@@ -588,7 +608,11 @@ class VeriTNotEquiv1(Macro):
 
     def eval(self, args, prevs):
         pt = prevs[0]
+        if len(args) != 2 or not pt.prop.is_not() or not pt.prop.arg.is_equals():
+            raise VeriTException("not_equiv2", "premise should be a negated equivalence")
         p1, p2 = args
+        if not p1.is_not() or not p2.is_not():
+            raise VeriTException("not_equiv2", "unexpected goal %s" % Or(*args))
         pt_p1, pt_p2 = pt.prop.arg.arg1, pt.prop.arg.arg
         if p1.arg == pt_p1 and p2.arg == pt_p2:
             return Thm(Or(p1, p2), pt.hyps)
@@ -614,6 +638,8 @@ class Equiv1Macro(Macro):
     
     def eval(self, args, prevs):
         pt = prevs[0]
+        if len(args) != 2 or not pt.prop.is_equals():
+            raise VeriTException("equiv1", "premise should be an equivalence")
         p1, p2 = pt.prop.args
         if Not(p1) == args[0] and p2 == args[1]:
             return Thm(Or(*args), pt.hyps)
@@ -637,6 +663,8 @@ class Equiv1Macro(Macro):
     
     def eval(self, args, prevs):
         pt = prevs[0]
+        if len(args) != 2 or not pt.prop.is_equals():
+            raise VeriTException("equiv2", "premise should be an equivalence")
         p1, p2 = pt.prop.args
         if p1 == args[0] and Not(p2) == args[1]:
             return Thm(Or(*args), pt.hyps)
@@ -831,7 +859,11 @@ class EquivPos1(Macro):
         self.limit = None
 
     def eval(self, args, prevs=None):
+        if len(args) != 3:
+            raise VeriTException("equiv_pos1", "clause must have three terms")
         arg1, arg2, arg3 = args
+        if not arg1.is_not() or not arg1.arg.is_equals():
+            raise VeriTException("equiv_pos1", "unexpected goal %s" % Or(*args))
         eq_tm = arg1.arg
         if eq_tm.arg1 == arg2 and Not(eq_tm.arg) == arg3:
             return Thm(Or(*args))
@@ -850,7 +882,11 @@ class EquivPos2(Macro):
         self.limit = None
 
     def eval(self, args, prevs=None):
+        if len(args) != 3:
+            raise VeriTException("equiv_pos2", "clause must have three terms")
         arg1, arg2, arg3 = args
+        if not arg1.is_not() or not arg1.arg.is_equals():
+            raise VeriTException("equiv_pos2", "unexpected goal %s" % Or(*args))
         eq_tm = arg1.arg
         if Not(eq_tm.arg1) == arg2 and eq_tm.arg == arg3:
             return Thm(Or(*args))
@@ -910,6 +946,8 @@ class EqCongurentPredMacro(Macro):
         goal = Or(*args)
         elems = goal.strip_disj()
         preds, pred_fun, concl = elems[:-2], elems[-2], elems[-1] 
+        if not all(pred.is_not() and pred.arg.is_equals() for pred in preds):
+            raise VeriTException("eq_congruent_pred", "all but the last two arguments should be negated equalities")
         if pred_fun.is_not():
             args_pair = [(i, j) for i, j in zip(pred_fun.arg.strip_comb()[1], concl.strip_comb()[1])]
         else:
@@ -918,6 +956,9 @@ class EqCongurentPredMacro(Macro):
             preds_pair = [(i.arg.lhs, i.arg.rhs) for i in preds]
         else:
             preds_pair = [(preds[0].arg.lhs, preds[0].arg.rhs), (preds[0].arg.lhs, preds[0].arg.rhs)]
+
+        if len(args_pair) > len(preds_pair):
+            raise VeriTException("eq_congruent_pred", "not enough equalities")
 
         for arg, pred in zip(args_pair, preds_pair):
             if arg == pred:
@@ -1190,12 +1231,15 @@ class EqSimplifyMacro(Macro):
         if lhs.is_equals():
             if lhs.lhs == lhs.rhs and rhs == true:
                 return Thm(arg)
-            elif lhs.lhs != lhs.rhs and rhs == false:
+            elif lhs.lhs.is_constant() and lhs.rhs.is_constant() and rhs == false and \
+                    lhs.lhs.get_type() in (IntType, RealType) and eval_hol_number(lhs.lhs) != eval_hol_number(lhs.rhs):
+                # different numeric constants
                 return Thm(arg)
             else:
                 raise VeriTException("eq_simplify", "rhs doesn't obey eq_simplify rule")
         elif lhs.is_not():
-            if not lhs.arg.is_equals() or lhs.arg.lhs == lhs.arg.rhs:
+            # ~(t = t) <--> false
+            if not lhs.arg.is_equals() or lhs.arg.lhs != lhs.arg.rhs:
                 raise VeriTException("eq_simplify", "lhs should be an inequality.")
             if rhs == false:
                 return Thm(arg)
@@ -1825,11 +1869,13 @@ class ITEIntroMacro(Macro):
             P, x, y = t.args
             ite_intros.append(logic.mk_if(P, Eq(x, t), Eq(y, t)))
         expected_ites = rhs.strip_conj()[1:]
+        # the first conjunct of the right side must be the left side
+        first_ok = compare_sym_tm(lhs, rhs.strip_conj()[0])
 
         # Sometimes the expected result has fewer conjuncts
         expected_set = set(expected_ites)
         intros_set = set(ite_intros)
-        if expected_set <= intros_set:
+        if first_ok and expected_set <= intros_set:
             return Thm(arg)
 
         def can_find_ite(ite, ite_set):
@@ -1840,7 +1886,7 @@ class ITEIntroMacro(Macro):
                     return True
             return False
         
-        if all(can_find_ite(ite, intros_set) for ite in expected_set):
+        if first_ok and all(can_find_ite(ite, intros_set) for ite in expected_set):
             return Thm(arg)
 
         expected_rhs = And(lhs, *ite_intros)
@@ -1989,6 +2035,9 @@ class AndNegMacro(Macro):
                 expected_conj.append(Not(conj.arg))
                 break
             conj = conj.arg
+        else:
+            # the last conjunct
+            expected_conj.append(Not(conj))
         if neg_disjs != tuple(expected_conj):
             raise VeriTException("and_neg", "Unexpected goal")
         return Thm(Or(*args))
@@ -2327,13 +2376,15 @@ def compare_ac(tm1, tm2):
         x2, body2 = tm2.arg.dest_abs()
         return x1 == x2 and compare_ac(body1, body2)
     elif logic.is_if(tm1):
+        if not logic.is_if(tm2):
+            return False
         P1, x1, y1 = tm1.args
         P2, x2, y2 = tm2.args
         return compare_ac(P1, P2) and compare_ac(x1, x2) and compare_ac(y1, y2)
     elif tm1.is_plus():
-        return compare_ac(tm1.arg1, tm2.arg1) and compare_ac(tm1.arg, tm2.arg)
+        return tm2.is_plus() and compare_ac(tm1.arg1, tm2.arg1) and compare_ac(tm1.arg, tm2.arg)
     elif tm1.is_times():
-        return compare_ac(tm1.arg1, tm2.arg1) and compare_ac(tm1.arg, tm2.arg)
+        return tm2.is_times() and compare_ac(tm1.arg1, tm2.arg1) and compare_ac(tm1.arg, tm2.arg)
     else:
         return tm1 == tm2
 
@@ -3236,14 +3287,14 @@ class ITESimplifyMacro(Macro):
             # Case 7: ite P (ite P x y) z <--> ite P x z
             elif logic.is_if(l_then):
                 l_then_P, l_then_then, _ = l_then.args
-                if l_P == l_then_P and l_then_then == r_then and l_else == r_else:
+                if l_P == r_P and l_P == l_then_P and l_then_then == r_then and l_else == r_else:
                     return True
                 else:
                     return False
             # Case 8: ite P x (ite P y z) <--> ite P x z
             elif logic.is_if(l_else):
                 l_else_P, _, l_else_else = l_else.args
-                if l_P == l_else_P and l_then == r_then and l_else_else == r_else:
+                if l_P == r_P and l_P == l_else_P and l_then == r_then and l_else_else == r_else:
                     return True
                 else:
                     return False
@@ -3496,7 +3547,7 @@ class UnaryMinusSimplifyMacro(Macro):
         if not lhs.is_uminus():
             raise VeriTException("minus_simplify", "lhs should be an uminus term")
         lhs_neg_tm = lhs.arg
-        if lhs_neg_tm.is_minus():
+        if lhs_neg_tm.is_uminus():
             if lhs_neg_tm.arg == rhs:
                 return Thm(goal)
             else:
@@ -3562,7 +3613,7 @@ class ConnectiveDefMacro(Macro):
             if rhs.is_conj() and rhs.arg1.is_implies() and rhs.arg.is_implies():
                 q1, q2 = rhs.arg1.args
                 o1, o2 = rhs.arg.args
-                if q1 == p1 and o2 == p1 and p2 == q2 and p1 == o2:
+                if q1 == p1 and o1 == p2 and p2 == q2 and p1 == o2:
                     return Thm(goal)
                 else:
                     raise VeriTException("connective_def", "can't match  (p <--> q) <--> (p --> q) /\ (q --> p)")
@@ -3575,6 +3626,7 @@ class ConnectiveDefMacro(Macro):
                 o1, o2 = rhs.arg.args # ~p1 --> p3
                 if q1 == p1 and o1 == Not(p1) and p2 == q2 and o2 == p3:
                     return Thm(goal)
+            raise VeriTException("connective_def", "can't match (ite p q r) <--> (p --> q) /\\ (~p --> r)")
         elif lhs.is_exists() and rhs.is_not() and rhs.arg.is_forall():
             l_var, l_body = lhs.strip_exists()
             r_var, r_body = rhs.arg.strip_forall()
@@ -3973,7 +4025,8 @@ class SubProofMacro(Macro):
         goal_neg_tms = args[:-1]
         goal_concl = args[-1]
         if all(g == Not(p) for g, p in zip(goal_neg_tms, input_prop)) and goal_concl == concl:
-            return Thm(Or(*args))
+            # discharge the local assumptions only
+            return Thm(Or(*args), tuple(hyp for hyp in prevs[-1].hyps if hyp not in input_prop))
         else:
             raise VeriTException("subproof", "unexpected result")
 
@@ -4502,6 +4555,12 @@ class QntCnfMacro(Macro):
 
         ys, concl_body = concl.strip_forall()
 
+        # Variables freed by removing quantifiers of the premise must be quantified
+        # again in the conclusion, and no free variable of the premise may be captured.
+        prem_fvs = set(prem.get_vars())
+        if any(y in prem_fvs for y in ys) or not set(concl_body.get_vars()) - prem_fvs <= set(ys):
+            raise VeriTException("qnt_cnf", "conclusion does not quantify the variables of the premise")
+
         cnf_body_conjs = cnf_body.strip_conj()
         if any(concl_body == t for t in cnf_body_conjs):
             return Thm(arg)
@@ -4653,7 +4712,7 @@ class NotImplies1Macro(Macro):
         if goal != prop.arg.arg1:
             raise VeriTException("not_implies1", "unexpected argument")
         
-        return Thm(goal)
+        return Thm(goal, prevs[0].hyps)
 
     def get_proof_term(self, args, prevs):
         goal = args[0]
@@ -4684,7 +4743,7 @@ class NotImplies2Macro(Macro):
         if goal != Not(prop.arg.arg):
             raise VeriTException("not_implies2", "unexpected argument")
         
-        return Thm(goal)
+        return Thm(goal, prevs[0].hyps)
     def get_proof_term(self, args, prevs):
         goal = args[0]
         prop = prevs[0].prop
@@ -4744,7 +4803,9 @@ class QNTSimplifyMacro(Macro):
         if not lhs.is_forall() and not lhs.is_exists():
             raise VeriTException("qnf_simplify", "lhs should be a quantification")
         
-        _, l_bd = lhs.strip_quant()
+        l_vars, l_bd = lhs.strip_quant()
+        if any(l_bd.occurs_var(v) for v in l_vars):
+            raise VeriTException("qnf_simplify", "a quantified variable occurs in the body")
         if l_bd == rhs:
             return Thm(goal)
         else:
@@ -4889,11 +4950,26 @@ class QntRmUnusedMacro(Macro):
         lhs, rhs = goal.args
         if not lhs.is_forall() and not lhs.is_exists():
             raise VeriTException("qnt_rm_unused", "lhs should have a quantifier")
+        def strip_quant_kind(tm):
+            """Quantifier prefix as a list of (is_forall, variable), and the body."""
+            res = []
+            while tm.is_forall() or tm.is_exists():
+                kind = tm.is_forall()
+                v = Var(tm.arg.var_name, tm.arg.var_T)
+                res.append((kind, v))
+                tm = tm.arg.subst_bound(v)
+            return res, tm
+
+        l_kinds, _ = strip_quant_kind(lhs)
+        r_kinds, _ = strip_quant_kind(rhs)
         l_vars, l_bd = lhs.strip_quant()
         if rhs.is_forall() or rhs.is_exists():
             r_vars, r_bd = rhs.strip_quant()
         else:
             r_vars, r_bd = [], rhs
+        # the variables that are kept must keep their quantifier
+        if [kv for kv in l_kinds if kv[1] in r_vars] != r_kinds:
+            raise VeriTException("qnt_rm_unused", "lhs and rhs have different quantifiers")
         free_vars = []
         if l_bd != r_bd:
             print("lhs", lhs)
@@ -5031,8 +5107,9 @@ class DivSimplifyMacro(Macro):
 
         goal = args[0]
         lhs, rhs = goal.args
-        # case 1: t / t <--> 1
-        if lhs.arg1 == lhs.arg and rhs.is_one():
+        # case 1: t / t <--> 1 (t must be a non-zero constant: x / 0 = 0 in HOL)
+        if lhs.arg1 == lhs.arg and rhs.is_one() and lhs.arg.is_constant() and \
+                lhs.arg.get_type() in (hol_type.IntType, hol_type.RealType) and eval_hol_number(lhs.arg) != 0:
             return Thm(goal)
         # case 2: t / 1 <--> t
         if lhs.arg1 == rhs and lhs.arg.is_one():
